@@ -1,6 +1,7 @@
 import RV.Proofs.ParticlesOps
 import RV.Proofs.ParticlesSlice
 import RV.Proofs.ParticlesSide
+import RV.Proofs.ParticlesLookup
 /-
   C14 — particle bookkeeping stays consistent under any add / remove / hash history.
 
@@ -292,6 +293,65 @@ theorem c14_zero_hash_is_last (srt : Sorter) (hs : srt.Valid) (c : State) (i : N
 example : (particleByHash ⟨id⟩ (wThree (-1) false) 12).2 = Out.found 1 := by decide +kernel
 example : (particleByHash ⟨id⟩ { wThree (-1) false with lookup := [⟨12, 2⟩, ⟨5, 7⟩] } 12).2 = Out.found 1 := by
   decide +kernel
+
+/-! ### the storage of the lookup table (RV/Model/ParticlesLookup.lean) -/
+
+/-- FULL STATEMENT: `reb_update_particle_lookup_table` on any particle array (any mixture of zero, duplicate and distinct
+    hashes) starting from any previous allocation (any capacity, any stale content): the growth test inside the loop
+    (`N_hash >= N_allocated_lookup` → double, or 128) makes every write — the append at slot `N_hash`, the first zero-hash entry
+    at slot `zerohash = i`, its later in-place updates — land inside the allocation; afterwards
+    `N_lookup ≤ N_allocated_lookup`, `N_lookup ≤ N`, the allocation has not shrunk, and the first `N_lookup` cells are exactly the
+    entries of the abstract loop that the lookup theorems (`c14_lookup_sound/complete/zero_hash_is_last`) are about. -/
+theorem c14_lookup_table_allocation (ps : List P) (cells0 : List (Option Entry)) :
+    ∃ cells n t, rebuildAllocLoop ps 0 cells0 0 none = some (cells, n) ∧ rebuildLoop ps 0 [] none = some t ∧
+      n = t.length ∧ n ≤ cells.length ∧ n ≤ ps.length ∧ cells0.length ≤ cells.length ∧
+      ∀ k, k < n → cells[k]? = some t[k]? :=
+  rebuildAlloc_spec ps cells0
+
+/-- the capacity after a rebuild covers the table and never shrinks -/
+theorem c14_lookup_table_capacity (cap : Nat) (ps : List P) :
+    cap ≤ capAfterRebuild cap ps ∧
+    ∃ t, rebuildLoop ps 0 [] none = some t ∧ t.length ≤ capAfterRebuild cap ps := by
+  obtain ⟨cells, n, t, e1, e2, e3, e4, _, e6, _⟩ := rebuildAlloc_spec ps (List.replicate cap none)
+  unfold capAfterRebuild
+  rw [e1]
+  simp only [List.length_replicate] at e6
+  exact ⟨e6, t, e2, by simp only []; omega⟩
+
+example : capAfterRebuild 0 [⟨1, 5, false⟩, ⟨2, 0, false⟩, ⟨3, 0, false⟩] = 128 ∧
+    capAfterRebuild 128 ((List.range 129).map fun i => ⟨i, i + 1, false⟩) = 256 ∧
+    capAfterRebuild 128 ((List.range 129).map fun i => ⟨i, 0, false⟩) = 128 := by decide +kernel
+
+/-- a lookup that finds a live particle carrying the hash in the table as it stands does not rebuild: the state, and with
+    it `N_allocated_lookup`, is untouched -/
+theorem c14_lookup_no_rebuild_when_table_answers (srt : Sorter) (c : State) (h : Nat) (hr : rebuilds c h = false)
+    (hnf : search c.lookup h c.N ≠ .fault) : (particleByHash srt c h).1 = c := by
+  unfold rebuilds at hr
+  unfold particleByHash
+  cases hs : search c.lookup h c.N with
+  | fault => exact absurd hs hnf
+  | miss => rw [hs] at hr; simp at hr
+  | hit i =>
+    rw [hs] at hr
+    simp only [] at hr ⊢
+    cases hm : c.mem[i]? with
+    | none => rfl
+    | some p =>
+      rw [hm] at hr
+      simp only [decide_eq_false_iff_not, ne_eq, Decidable.not_not] at hr
+      simp only [hr, if_true]
+
+/-- FULL STATEMENT: when exactly one live particle carries the hash, the lookup returns exactly that particle — for any
+    (stale, garbage) table and any admissible `qsort` -/
+theorem c14_lookup_unique_exact (srt : Sorter) (hs : srt.Valid) (c : State) (hN : c.N ≤ c.mem.length)
+    (h i : Nat) (p : P) (hi : i < c.N) (hp : c.mem[i]? = some p) (hh : p.hash = h)
+    (huniq : ∀ j q, j < c.N → c.mem[j]? = some q → q.hash = h → j = i) :
+    (particleByHash srt c h).2 = Out.found i := by
+  obtain ⟨j, hj⟩ := c14_lookup_complete srt hs c hN h i p hi hp hh
+  obtain ⟨hjn, q, hq, hqh⟩ := c14_lookup_sound srt hs c hN h j hj
+  rw [hj, huniq j q hjn hq hqh]
+
+example : (particleByHash ⟨id⟩ { wThree (-1) false with lookup := [⟨99, 0⟩, ⟨13, 1⟩] } 13).2 = Out.found 2 := by decide +kernel
 
 /-! ### what a successful removal does to the order -/
 
